@@ -10,7 +10,9 @@ different language systems (including a script of the font's own with a REQUIRED
 index 0 or later), glyph names that already carry the merger's own ".N" suffixes, CFF inputs subroutinised
 by hand (global only / local only / both), TrueType composites and composites of composites in every position,
 format-4-only fonts mixed with fonts that also need a format-12 subtable while sharing BMP characters, left-over
-lookups that no feature references; list orders permuted; chained merges merge(merge(A,B),C,...).  The real `Merger.merge` runs under monitors
+lookups that no feature references, per-language rules (locl/kern, include or exclude_dflt) in scripts shared between
+inputs shaped with every language the input declares, useExtension lookups including contextual ones with nested
+lookups, mark filtering sets in GSUB and GPOS (base-mark-base texts); list orders permuted; chained merges merge(merge(A,B),C,...).  The real `Merger.merge` runs under monitors
 on merge, computeMegaGlyphOrder, computeMegaCmap, every table `merge` method, layoutPre/PostMerge,
 mergeScriptRecords, mapLookups/mapFeatures.
 
@@ -582,6 +584,18 @@ def _shape_input(ctx, rnd, i, excl, hi, hm, Si, ren, morder, bad, quick, flavour
         if all(lg in Si.scripts.get(t, {}).get(sc, []) for t in tabs):
             configs.append((sc, lg, {t: 1 for t in tags if rnd.random() < 0.5}))
             ctx.note("shaping configs with a required feature")
+    # every language system the input itself declares (in each of its layout tables)
+    own = []
+    for sc in sorted(cand):
+        ls = [set(Si.scripts.get(t, {}).get(sc, [])) for t in tabs]
+        for lg in sorted(set.intersection(*ls) - {"dflt"}) if ls else []:
+            own.append((sc, lg))
+    if len(own) > (3 if quick else 8):
+        own = rnd.sample(own, 3 if quick else 8)
+    for sc, lg in own:
+        if (sc, lg) not in [(c0, c1) for c0, c1, _f in configs]:
+            configs.append((sc, lg, {t: rnd.choice([1, 1, 2]) for t in tags if rnd.random() < 0.6}))
+            ctx.note("shaping configs with a declared language")
     for _ in range(2 if quick else 3):
         script = rnd.choice(sorted(cand))
         lang = "dflt"
@@ -602,6 +616,15 @@ def _shape_input(ctx, rnd, i, excl, hi, hm, Si, ren, morder, bad, quick, flavour
         texts += [[rnd.choice(excl), rnd.choice(excl)] for _ in range(budget - n)]
     for _ in range(30 if quick else 100):
         texts.append([rnd.choice(excl) for _k in range(rnd.randint(3, 6))])
+    # base, mark, base: lookups that skip or keep marks (filtering sets, attachment classes, IgnoreMarks)
+    marks = [c for c in excl if hi.face.get_layout_glyph_class(hi.nominal(c)) == 3]
+    if marks:
+        nm = [c for c in excl if c not in marks]
+        trip = [[a, m, b] for m in marks[:3] for a in nm for b in nm]
+        if len(trip) > (150 if quick else 600):
+            trip = rnd.sample(trip, 150 if quick else 600)
+        texts += trip
+        ctx.note("base-mark-base texts", len(trip))
     active = 0
     for script, lang, f in configs:
         reported = False
